@@ -515,6 +515,9 @@ func TestC19Rapid(t *testing.T) {
 			case "metadata":
 				b := w.bridges[rapid.IntRange(0, len(w.bridges)-1).Draw(rt, "bridge")]
 				kind, md := genMetadata(rt)
+				if rapid.IntRange(0, 4).Draw(rt, "resubmit") == 0 {
+					kind, md = "resubmit-current", append([]byte{}, b.metadata...) // the stored metadata, byte for byte
+				}
 				signer := b.proposer
 				if rapid.IntRange(0, 9).Draw(rt, "gov") == 0 {
 					signer = w.e.Authority
